@@ -23,21 +23,40 @@ package termrenderers
 //@   pure
 // ---- histogram ----
 //@ pred wf_histo(s) := s.textSpacing >= 0
+// One scale: the number, the bar and the key column of a line are drawn relative to the running
+// maximum and the key width. hd_max(s)[i] / hd_sp(s)[i] record the maximum / key width line i was
+// last drawn with; every line that shows a positive value carries the current ones, so a value
+// that raises the maximum (or a wider key) redraws all of them - whatever is displayed.
+//@ ghost hd_max(HistoWriter) ints
+//@ ghost hd_sp(HistoWriter) ints
+//@ pred histo_one(s) := forall i in [0, len(s.items)) :: s.items[i].val > 0 ==> hd_max(s)[i] == s.maxVal && hd_sp(s)[i] == s.textSpacing
+//@ func NewHistogram
+//@   requires maxLines >= 0
+//@   ensures result != nil && wf_histo(result) && histo_one(result) && result.maxVal == 0
 //@ func (*HistoWriter).WriteForLine
 //@   requires wf_histo(s) && line >= 0
+//@   requires [one-scale] histo_one(s)
 //@   ensures wf_histo(s)
+//@   ensures [one-scale] histo_one(s) && s.maxVal >= old(s.maxVal) && (line < len(s.items) ==> s.maxVal >= val)
 //@ func (*HistoWriter).fullRender
 //@   requires wf_histo(s)
+//@   modifies dyn(s.writer).*, ghost hd_max(s), ghost hd_sp(s)
 //@   ensures wf_histo(s)
-//@   loop 1 invariant wf_histo(s)
+//@   ensures [all-redrawn] histo_one(s)
+//@   loop 1 invariant wf_histo(s) && ref(rangeslice()) == ref(s.items) && off(rangeslice()) == off(s.items) && len(rangeslice()) == len(s.items)
+//@   loop 1 invariant forall i in [0, rangeindex + 1) :: s.items[i].val > 0 ==> hd_max(s)[i] == s.maxVal && hd_sp(s)[i] == s.textSpacing
 //@ func (*HistoWriter).writeLine
 //@   requires wf_histo(s) && line >= 0
-//@   modifies dyn(s.writer).*
+//@   modifies dyn(s.writer).*, ghost hd_max(s), ghost hd_sp(s)
+//@   ghostset hd_max(s) := store(old(hd_max(s)), line, s.maxVal)
+//@   ghostset hd_sp(s) := store(old(hd_sp(s)), line, s.textSpacing)
+//@   ensures [drawn-at-scale] hd_max(s) == store(old(hd_max(s)), line, s.maxVal) && hd_sp(s) == store(old(hd_sp(s)), line, s.textSpacing)
 //@ func (*HistoWriter).writeLine$1
 //@   requires w != nil && *s != nil && (*s).maxVal > 0
 //@   modifies ghost sw_calls(w)
 //@ func (*HistoWriter).UpdateTotal
 //@   requires wf_histo(s)
+//@   ensures [one-scale] histo_one(s)
 //@ func (*HistoWriter).WriteFooter
 //@   requires idx >= 0 && idx <= 1000000000
 
